@@ -175,8 +175,19 @@ class Chip(object):
         self.put_field("vcpu", "app_id", self.core_app[p], p)
         self.put_field("vcpu", "app_name", self.core_name[p][:16], p)
         self.put_field("vcpu", "phys_cpu", (p + 3) % 18, p)
+        if self.sim.tidy_vcpu:
+            # keep derived readers (status, console buffer) well defined
+            self.put_field("vcpu", "iobuf", 0, p)
+            self.put_field("vcpu", "rt_code", 0, p)
 
     def sync_router(self):
+        """The router copy is materialised lazily (on the next read)."""
+        self.router_dirty = True
+
+    def flush_router(self):
+        if not getattr(self, "router_dirty", False):
+            return
+        self.router_dirty = False
         for i, e in enumerate(self.router):
             if e is None:
                 rec = struct.pack("<2H3I", 0, 0, 0xff000000, 0, 0)
@@ -244,6 +255,7 @@ class SimMachine(object):
         self.p2p_none = set()      # chips listed as unreachable in p2p table
         self.full_sync = True      # also materialise p2p table + router copy
         self.full_sync_chips = None  # restrict the full sync to these chips
+        self.tidy_vcpu = False
         if (0, 0) in self.chips:
             c = self.chips[(0, 0)]
             c.eth_up = True
@@ -355,6 +367,8 @@ class SimMachine(object):
                          % (what, a1, a2, unit))
             n = (a2 // unit) * unit
             if cmd == CMD_READ:
+                if chip.rtr_copy < a1 + n and a1 < chip.rtr_copy + 16384:
+                    chip.flush_router()
                 return (OK, [], chip.mem.read(a1, n))
             if len(data) != a2:
                 self.err("write announces %d bytes, carries %d" % (a2,
